@@ -343,6 +343,13 @@ func rank(s Status) int {
 // ViolationPath is where the replay record of a violation is written.
 func ViolationPath(evidenceDir, prop, key string) string {
 	safe := strings.NewReplacer("/", "_", " ", "_", ":", "_", "(", "", ")", "", "*", "").Replace(key)
+	// ASCII only: the name is cut at a byte position and printed on the VIOLATION line
+	safe = strings.Map(func(r rune) rune {
+		if r > 126 || r < 33 || r == '\'' || r == '"' || r == '$' || r == '#' || r == '[' || r == ']' {
+			return '_'
+		}
+		return r
+	}, safe)
 	if len(safe) > 60 {
 		safe = safe[:60]
 	}
